@@ -347,28 +347,48 @@ def mapInts : List (List Char) → Option (List Int)
     | some i, some is => some (i :: is)
     | _, _ => none
 
+/-- `timestamp.timezone_info` on the trailing word; no word: `timestamp.UTC` -/
+def resolveZone (db : TzDb) (word : Option (List Char)) : Except Reject (Zone × Option Bool) :=
+  match word with
+  | none => .ok (utcZone, none)
+  | some w => db.info w
+
+/-- the `assert 6 <= len(terms) <= 7`, the fraction padding, `map(int, terms)` and the checks of
+`datetime.datetime(*ints)`: the civil fields and the microseconds -/
+def readTerms (terms : List (List Char)) : Except Reject (Civil × Int) :=
+  if terms.length < 6 || terms.length > 7 then .error .terms
+  else
+    let terms := match terms with
+      | [a, b, c, d, e, f, g] => [a, b, c, d, e, f, padFraction g]
+      | ts => ts
+    match mapInts terms with
+    | none => .error .value
+    | some ints =>
+      let r : Civil × Int := match ints with
+        | [y, m, d, hh, mm, ss] => (⟨y, m, d, hh, mm, ss⟩, 0)
+        | [y, m, d, hh, mm, ss, us] => (⟨y, m, d, hh, mm, ss⟩, us)
+        | _ => (⟨0, 0, 0, 0, 0, 0⟩, 0)
+      if !r.1.valid || r.2 < 0 || r.2 ≥ 1000000 then .error .value else .ok r
+
+/-- `tz.localize(naive)` and `number_from_datetime`: the instant in microseconds -/
+def instantOf (z : Zone) (flag : Option Bool) (c : Civil) (micro : Int) : Except Reject Int :=
+  match localize z flag (secsOfCivil c) with
+  | .error e => .error e
+  | .ok u =>
+    if (civilOfSecs u).y < 1 || (civilOfSecs u).y > 9999 then .error .overflow
+    else .ok (u * 1000000 + micro)
+
 /-- `timestamp(text).value` in microseconds -/
-def parseWith (fixed : Bool) (db : TzDb) (s : List Char) : Except Reject Int := do
-  let (terms, word) ← tokenize fixed s
-  let (z, flag) ← match word with
-    | none => pure (utcZone, none)
-    | some w => db.info w
-  if terms.length < 6 || terms.length > 7 then throw .terms
-  let terms := match terms with
-    | [a, b, c, d, e, f, g] => [a, b, c, d, e, f, padFraction g]
-    | ts => ts
-  match mapInts terms with
-  | none => throw .value
-  | some ints =>
-    let (c, micro) : Civil × Int := match ints with
-      | [y, m, d, hh, mm, ss] => (⟨y, m, d, hh, mm, ss⟩, 0)
-      | [y, m, d, hh, mm, ss, us] => (⟨y, m, d, hh, mm, ss⟩, us)
-      | _ => (⟨0, 0, 0, 0, 0, 0⟩, 0)
-    if !c.valid || micro < 0 || micro ≥ 1000000 then throw .value
-    let u ← localize z flag (secsOfCivil c)
-    let cu := civilOfSecs u
-    if cu.y < 1 || cu.y > 9999 then throw .overflow
-    pure (u * 1000000 + micro)
+def parseWith (fixed : Bool) (db : TzDb) (s : List Char) : Except Reject Int :=
+  match tokenize fixed s with
+  | .error e => .error e
+  | .ok (terms, word) =>
+    match resolveZone db word with
+    | .error e => .error e
+    | .ok (z, flag) =>
+      match readTerms terms with
+      | .error e => .error e
+      | .ok (c, micro) => instantOf z flag c micro
 
 def parse := parseWith true
 def parseOld := parseWith false
